@@ -451,6 +451,7 @@ func c20(c *core.Check) {
 	c20HexEscapesEndWithSpace(c)
 	c20BackslashNewline(c)
 	c20IdentFuses(c)
+	c20TightLookahead(c)
 	r4 := c.Rule("R4", "serializeStringValue escapes \", \\, LF, CR, FF; serializeURL additionally ', space, TAB, ( and ); serializeName passes through only [A-Za-z0-9_-] and non-ASCII", 6)
 	// an escaped leading digit (or control character) of an identifier is a hexadecimal escape: it must end with a space
 	if si := p.Fn("css/parser", "serializeIdentifier"); si == nil {
